@@ -137,8 +137,7 @@ EXPORT errno_t _asctime_s_chk(char *dest, rsize_t dmax, const struct tm *tm,
     }
 
     if (unlikely(tm == NULL)) {
-        invoke_safe_str_constraint_handler("asctime_s: tm is null", NULL,
-                                           ESNULLP);
+        handle_error(dest, dmax, "asctime_s: tm is null", ESNULLP);
         return ESNULLP;
     }
 
@@ -149,8 +148,8 @@ EXPORT errno_t _asctime_s_chk(char *dest, rsize_t dmax, const struct tm *tm,
         || tm->tm_gmtoff < -1036800 /* 12*86400 */
 #endif
     ) {
-        invoke_safe_str_constraint_handler(
-            "asctime_s: a tm member is too small", NULL, ESLEMIN);
+        handle_error(dest, dmax, "asctime_s: a tm member is too small",
+                     ESLEMIN);
         return ESLEMIN;
     }
 
@@ -162,8 +161,8 @@ EXPORT errno_t _asctime_s_chk(char *dest, rsize_t dmax, const struct tm *tm,
 #endif
     ) {
         /* does EOVERFLOW in asctime() */
-        invoke_safe_str_constraint_handler(
-            "asctime_s: a tm member is too large", NULL, ESLEMAX);
+        handle_error(dest, dmax, "asctime_s: a tm member is too large",
+                     ESLEMAX);
         return ESLEMAX;
     }
 
@@ -178,11 +177,12 @@ EXPORT errno_t _asctime_s_chk(char *dest, rsize_t dmax, const struct tm *tm,
 #endif
             return -1;
         }
+        return EOK; /* the result is in dest already */
     } else {
         char tmp[120];
         buf = asctime_r(tm, (char *)&tmp);
         if (!buf)
-            return -1;
+            goto failed;
         len = strlen(buf);
         if (likely(len < dmax)) {
             strcpy_s(dest, dmax, buf);
@@ -196,16 +196,24 @@ EXPORT errno_t _asctime_s_chk(char *dest, rsize_t dmax, const struct tm *tm,
     if (0)
         goto esnospc;
 #endif
-    if (!buf)
+    if (!buf) {
+#if defined(HAVE_ASCTIME_R)
+    failed:
+#endif
+#ifdef SAFECLIB_STR_NULL_SLACK
+        memset(dest, 0, dmax);
+#else
+        *dest = '\0';
+#endif
         return -1;
+    }
     len = strlen(buf);
 
     if (likely(len < dmax)) {
         strcpy_s(dest, dmax, buf);
     } else {
     esnospc:
-        invoke_safe_str_constraint_handler("asctime_s: dmax is too small", dest,
-                                           ESNOSPC);
+        handle_error(dest, dmax, "asctime_s: dmax is too small", ESNOSPC);
         return ESNOSPC;
     }
 
